@@ -529,6 +529,23 @@ class Opaque:
         return f"Opaque({self.tag})"
 
 
+class TextOf:
+    """piece of SStr: the text obtained by decoding `rope` with (codec, errors) - decoding is a function of the bytes"""
+    __slots__ = ("rope", "codec", "errors")
+
+    def __init__(self, rope, codec, errors):
+        self.rope, self.codec, self.errors = rope, codec, errors
+
+    def __repr__(self):
+        return f"TextOf({self.codec},{self.errors})"
+
+
+def norm_codec(enc):
+    e = str(enc).lower().replace("_", "-")
+    return {"utf8": "utf-8", "latin1": "latin-1", "iso-8859-1": "latin-1", "iso8859-1": "latin-1", "l1": "latin-1",
+            "us-ascii": "ascii"}.get(e, e)
+
+
 class SStr(Sym):
     __slots__ = ("pieces",)
 
